@@ -188,6 +188,29 @@ func (x *Exec) callByKey(callee *types.Func, recv *Val, args []Val, e *ast.CallE
 	return x.applyContract(fc, key, sig, recv, args, e, st)
 }
 
+// detCall: the i-th result of a function whose contract is marked
+// deterministic, as an uninterpreted function of receiver and arguments.
+func (x *Exec) detCall(key string, sig *types.Signature, recv *Val, args []Val, i int) Val {
+	var sorts []Sort
+	var ts []*Term
+	if recv != nil {
+		rt := recv.T
+		// a pointer receiver passed where the method has a value receiver
+		sorts = append(sorts, rt.Sort)
+		ts = append(ts, rt)
+	}
+	for j, a := range args {
+		pty := x.w.goTy(sig.Params().At(j).Type(), x.model.BV)
+		t := x.coerceTo(a, pty)
+		sorts = append(sorts, t.Sort)
+		ts = append(ts, t)
+	}
+	rty := x.w.goTy(sig.Results().At(i).Type(), x.model.BV)
+	fn := fmt.Sprintf("det_%s_%d", sanitize(key), i)
+	x.sym.Func(fn, sorts, x.w.sortOf(rty, x.model))
+	return Val{T: mk(fn, x.w.sortOf(rty, x.model), ts...), Ty: rty}
+}
+
 // pureCall: uninterpreted function of (receiver, args).
 func (x *Exec) pureCall(key string, sig *types.Signature, recv *Val, args []Val) Val {
 	x.noteTrusted("assumed pure: " + key)
@@ -341,23 +364,14 @@ func (x *Exec) applyContract(fc *FuncContract, key string, sig *types.Signature,
 		rty := x.w.goTy(rv.Type(), x.model.BV)
 		var t *Term
 		if fc.Pure {
-			// deterministic: result is a function of the arguments and the
-			// heaps it may read (approximated by: arguments only + pre heaps
-			// of matching sorts are not included; see DESIGN A8)
-			var sorts []Sort
-			var ts []*Term
-			if recv != nil {
-				sorts = append(sorts, recv.T.Sort)
-				ts = append(ts, recv.T)
-			}
+			// deterministic: the result is a function of the argument values
+			// (slices and pointers by identity; valid while the storage they
+			// refer to is not modified, see DESIGN A8)
+			var avs []Val
 			for j := range args {
-				tt := names[sig.Params().At(j).Name()].T
-				sorts = append(sorts, tt.Sort)
-				ts = append(ts, tt)
+				avs = append(avs, names[sig.Params().At(j).Name()])
 			}
-			fn := fmt.Sprintf("det_%s_%d", sanitize(key), i)
-			x.sym.Func(fn, sorts, x.w.sortOf(rty, x.model))
-			t = mk(fn, x.w.sortOf(rty, x.model), ts...)
+			t = x.detCall(key, sig, recv, avs, i).T
 		} else {
 			t = x.sym.Fresh("r_"+shortKey(key), x.w.sortOf(rty, x.model))
 		}
